@@ -213,6 +213,7 @@ func TestVfC07Cache(t *testing.T) {
 			burst  int
 		}
 		asks := make([]ask, n)
+		reSplit := false
 		for i := range asks {
 			a := ask{name: baseName, typ: baseType, class: baseClass, client: c07GenClient(t), burst: 1}
 			switch rapid.IntRange(0, 7).Draw(t, "vary") {
@@ -237,6 +238,28 @@ func TestVfC07Cache(t *testing.T) {
 				a.burst = rapid.IntRange(2, 6).Draw(t, "burst")
 			}
 			asks[i] = a
+		}
+		// One history in three also contains a pair of questions whose name, class, type and group label spell the same
+		// octet string when written one after the other: (base + ".z", IN, type 'g''1', client in no group) and
+		// (base, class 0x01'z', type A, client in group "g1") - likewise for "g2". Four components of variable total length:
+		// a key has to keep them apart.
+		if n >= 4 && rapid.IntRange(0, 2).Draw(t, "reSplitTwins") == 0 {
+			grp := rapid.SampledFrom([]byte{'1', '2'}).Draw(t, "twinGroup")
+			inGroup := c07Client{"udp", netip.AddrFrom4([4]byte{127, 20, 7, byte(rapid.IntRange(1, 254).Draw(t, "twinHost"))})}
+			if grp == '2' {
+				inGroup = c07Client{"udp", netip.AddrFrom4([4]byte{127, 21, 0, byte(rapid.IntRange(1, 254).Draw(t, "twinHost2"))})}
+			}
+			noGroup := c07Client{"udp", netip.AddrFrom4([4]byte{127, 23, 0, byte(rapid.IntRange(1, 254).Draw(t, "twinHost3"))})}
+			long := ask{name: append(append(vfkit.Name{}, baseName...), []byte("z")), typ: uint16('g')<<8 | uint16(grp), class: 1, client: noGroup, burst: 1}
+			short := ask{name: baseName, typ: 1, class: 0x0100 | uint16('z'), client: inGroup, burst: 1}
+			j := rapid.IntRange(0, n-2).Draw(t, "twinAt")
+			k := rapid.IntRange(j+1, n-1).Draw(t, "twinAt2")
+			if rapid.Bool().Draw(t, "shortFirst") {
+				asks[j], asks[k] = short, long
+			} else {
+				asks[j], asks[k] = long, short
+			}
+			reSplit = true
 		}
 		// per-serial bookkeeping
 		type seen struct {
@@ -382,6 +405,9 @@ func TestVfC07Cache(t *testing.T) {
 			t.Fatalf("proxy crashed: %s", cr)
 		}
 		classes := []string{"cache=" + mode}
+		if reSplit {
+			classes = append(classes, "re-split-twins")
+		}
 		if mode == "store" {
 			st.Class("store-hits", int(store.Hits.Load()-storeHitsBefore))
 		}
